@@ -406,7 +406,7 @@ func TestC31(t *testing.T) {
 		"block whose hash, fed to the documented selection, gets a probe proof past ValidateProof's index check (candidates: every block <= current). Oracle: claim accepted in " +
 		"block h => h <= entropy block height (hash of block e is public from height e+1 on: block e+1's header carries it). non-trivial = claim height within 1 of the last " +
 		"accepted height or of the first height at which the entropy hash is public. part 2 (rapid): PseudorandomSelection(max, seed) for max in [1,2^62] (biased to small / " +
-		"powers of two) and random seeds: 0 <= index < max, equals the documented big-endian-8-byte mod formula, repeatable"
+		"powers of two) and random seeds: 0 <= index < max, equals the documented big-endian-8-byte mod formula, repeatable (non-trivial there = seed whose first byte has the top bit set, where a signed reading would differ)"
 	// part 2 first: it is cheap, and a broken selection function would otherwise crash session generation inside part 1
 	resetGlobals()
 	harness.Check(t, "C31", rule, nil, func(rt *rapid.T, c *harness.Case) {
